@@ -20,6 +20,7 @@ if __name__ == '__main__':
   kinds = {'neutral': ['selftest/neutral'], 'seeds': ['selftest/seeds'], 'seeded': ['seeded'], 'all': ['seeded', 'selftest/seeds', 'selftest/neutral']}[which]
   jobs = []
   own = {}
+  expected_miss = set()
   for kind in kinds:
     for d in sorted(os.listdir(os.path.join(V, kind))):
       if not os.path.exists(os.path.join(V, kind, d, 'patch.diff')):
@@ -27,6 +28,8 @@ if __name__ == '__main__':
       mp = os.path.join(V, kind, d, 'meta.json')
       meta = json.load(open(mp)) if os.path.exists(mp) else {}
       own[(kind, d)] = meta.get('properties') or [meta.get('property')]
+      if meta.get('expected_miss'):
+        expected_miss.add((kind, d))
       jobs += [(kind, d, p) for p in PIDS]
   with ProcessPoolExecutor(16) as ex:
     res = list(ex.map(one, jobs, chunksize=4))
@@ -38,6 +41,9 @@ if __name__ == '__main__':
       ok = not hits
     else:
       ok = any(p in hits for p in o)
+    if (kind, d) in expected_miss:
+      print('%-6s %-50s %s %s (recorded as not detected: see meta.json)' % ('XMISS' if not ok else 'OK+', d, ','.join(map(str, o)), hits))
+      continue
     bad += not ok
     print('%-6s %-50s %s %s %s' % ('OK' if ok else ('NOISE' if 'neutral' in kind else 'MISS'), d, ','.join(map(str, o)), hits, '' if sts <= {'applied'} else sts))
   print('%d variants, %d not ok' % (len(own), bad))
